@@ -21,6 +21,7 @@ import IgrisModel.C13.Lemmas
 import IgrisModel.C13.Total2
 import IgrisModel.C13.ShapeMain
 import IgrisModel.C13.ErrBound
+import IgrisModel.C13.Round3
 namespace Igris.C13
 open Igris.C06 (Ops NUL)
 
@@ -506,5 +507,159 @@ theorem print_f_exact_e (N fuel : ℕ) (x : ℚ) (precision : ℤ) (ops : Ops) (
       |(a + b / 10 ^ d.signCount) * (10 : ℚ) ^ e - x| ≤ 1 / 2 * (10 : ℚ) ^ (e - d.precision) := by
   obtain ⟨d, a, b, e, h1, h2, h3, h4, _, h9⟩ := digits_error_e_exact N fuel x precision ops h0 hN hN' hf hNb hp0 hp1
   exact ⟨d, a, b, e, h1, h2, h3, h4, h9⟩
+
+
+/-! ## Round 3 -/
+
+/-- **round_any_tie_rule_off_tie** — the rounding step of print_f is `roundl` (half away from zero) in the model;
+the property leaves the direction of a tie open.  OFF a tie every rounding to a nearest integer (half-even,
+half-down, anything with |k - w| ≤ 1/2) returns exactly what `roundl` returns, so every theorem about the model
+holds verbatim for an engine with another tie rule on every input whose scaled value is not a tie. -/
+theorem round_any_tie_rule_off_tie (w : ℚ) (k : ℤ) (hk : |(k : ℚ) - w| ≤ 1 / 2) (hnt : w - FV.flr w ≠ 1 / 2) :
+    FV.round (.fin false w) = .fin false (k : ℚ) := by
+  rw [round_fin, nearest_off_tie w k hk hnt]
+
+example : |((3 : ℤ) : ℚ) - 27 / 10| ≤ 1 / 2 ∧ (27 / 10 : ℚ) - FV.flr (27 / 10) ≠ 1 / 2 := by
+  refine ⟨by norm_num [abs_le], ?_⟩
+  rw [show FV.flr (27 / 10 : ℚ) = ((2 : ℕ) : ℚ) from flr_eq_nat (by norm_num) (by norm_num)]
+  norm_num
+
+/-- **round_any_tie_rule_on_tie** — ON a tie the two admissible results are the two neighbours `⌊w⌋` and `⌊w⌋ + 1`
+(the model takes the upper one); both are exactly half a unit from the scaled value, which is all the error
+theorems use (`flr_half_err`: they are stated for "within half a unit", not for half-away). -/
+theorem round_any_tie_rule_on_tie (w : ℚ) (k : ℤ) (hk : |(k : ℚ) - w| ≤ 1 / 2) (ht : w - FV.flr w = 1 / 2) :
+    ((k : ℚ) = FV.flr w ∨ (k : ℚ) = FV.flr w + 1) ∧ FV.round (.fin false w) = .fin false (FV.flr w + 1) := by
+  refine ⟨nearest_on_tie w k hk ht, ?_⟩
+  rw [round_fin]
+  congr 1
+  have h0 := flr_le w
+  have hw : w = FV.flr w + 1 / 2 := by linarith
+  have e : w + 1 / 2 = FV.flr w + 1 := by linarith
+  rw [e]
+  unfold FV.flr
+  rw [ratFloor_eq, ratFloor_eq]
+  have : ⌊((⌊w⌋ : ℤ) : ℚ) + 1⌋ = ⌊w⌋ + 1 := by
+    rw [Int.floor_add_one]; simp
+  rw [this]; push_cast; ring
+
+example : |((2 : ℤ) : ℚ) - 5 / 2| ≤ 1 / 2 ∧ (5 / 2 : ℚ) - FV.flr (5 / 2) = 1 / 2 := by
+  refine ⟨by norm_num [abs_le], ?_⟩
+  rw [show FV.flr (5 / 2 : ℚ) = ((2 : ℕ) : ℚ) from flr_eq_nat (by norm_num) (by norm_num)]
+  norm_num
+
+/-- **runNested_spec** — the callback experiment of the `pfn` ops (Nested.lean): when the characters of an outer
+conversion go through a callback that runs a nested conversion right after character number `k`, the outer sink
+receives exactly the outer text, and the nested conversion ran (once, with the result of the independent call)
+iff the outer text has a character number `k`. -/
+theorem runNested_spec {ρ : Type} (k : Nat) (inner : Unit → ρ) (out : List Char) :
+    (runNested k inner out).out = out ∧
+    (runNested k inner out).inner = if k < out.length then some (inner ()) else none := by
+  have := runNested_aux k inner out ({} : NestSt ρ) (by simp)
+  simpa [runNested] using this
+
+/-- **print_f_reentrant** — print_f's result depends on its arguments only (the model has no static state): a
+floating conversion nested inside the callback of another one at ANY character position yields the text and the
+count of the independent call and leaves the outer text untouched.  That the C code has this property (it would
+not with a `static` digit buffer) is what the `pfn` ops check on every run. -/
+theorem print_f_reentrant {α : Type} (A : Arith α) (cfg : Cfg) (fuel : Nat)
+    (rA : α) (nA : Bool) (wA pA : Int) (oA : Ops) (eA sA : Bool) (outA : List Char) (pcA : Int)
+    (rB : α) (nB : Bool) (wB pB : Int) (oB : Ops) (eB sB : Bool) (k : Nat)
+    (h : printF A cfg fuel rA nA wA pA oA eA sA = .ok (outA, pcA)) :
+    let st := runNested k (fun _ => printF A cfg fuel rB nB wB pB oB eB sB) outA
+    (printF A cfg fuel rA nA wA pA oA eA sA = .ok (st.out, pcA)) ∧
+    st.inner = if k < outA.length then some (printF A cfg fuel rB nB wB pB oB eB sB) else none := by
+  intro st
+  obtain ⟨h1, h2⟩ := runNested_spec k (fun _ => printF A cfg fuel rB nB wB pB oB eB sB) outA
+  exact ⟨by rw [h]; show Except.ok (outA, pcA) = Except.ok (st.out, pcA); rw [show st.out = outA from h1], h2⟩
+
+example : (runNested 1 (fun _ => (7 : Nat)) "ab".toList).inner = some 7 ∧ (runNested 2 (fun _ => (7 : Nat)) "ab".toList).inner = none := by
+  decide
+
+/-- **layoutC_eq_layout** — `int` arithmetic of the emission part (audit item 5): with the width and the number of
+trailing zeros (precision - generated digits) non-negative and `width + zeros ≤ INT_MAX - 1647` no `int` expression
+of the emission part of print_f overflows - `layoutC` (every intermediate `int` checked, C's evaluation order)
+returns what the unbounded `layout` returns.  The buffer regions are at most 352 bytes (`print_f_safe`). -/
+theorem layoutC_eq_layout (cfg : Cfg) (ops : Ops) (width : Int) (pfx : List Char) (b : Buf) (zeroLeft : Int)
+    (hw : 0 ≤ width) (hz : 0 ≤ zeroLeft) (hsum : width + zeroLeft ≤ 2147482000)
+    (hp : pfx.length ≤ 3) (hb : b.body.length ≤ 352) (hq : b.post.length ≤ 352) :
+    layoutC cfg ops width pfx b zeroLeft = layout cfg ops width pfx b zeroLeft := by
+  have hc := cstrlen_le b.post
+  unfold layoutC
+  rcases hz' : ops.zero <;> rcases hl : ops.left <;> rcases hr : cfg.repaired <;>
+    simp (disch := omega) only [ckInt_ok', bind, Except.bind, Bool.or_false, Bool.or_true, Bool.and_true, Bool.and_false,
+      Bool.not_true, Bool.not_false, if_true, if_false, Bool.false_eq_true, Int.zero_add]
+
+example : layoutC cfgNow {} 12 ['-'] { body := "1.5".toList } 3 = layout cfgNow {} 12 ['-'] { body := "1.5".toList } 3 := by decide
+
+/-- **print_f_int_overflow_witness** — beyond the bound it does overflow: `%.2147483647f` of 1.5 (body `1.5`,
+zero_left = INT_MAX - 1): `pc += zero_left` leaves `int` (undefined behaviour in C) - after the code has already
+been asked for 2^31 - 2 zeros one callback at a time.  print_f neither clamps nor allocates: the text is
+produced character by character, so "terminates" holds, "returns the number of characters" cannot. -/
+theorem print_f_int_overflow_witness :
+    layoutC cfgNow { prec := true } 0 [] { body := "1.5".toList } 2147483646 = .error .undef ∧
+    layoutC cfgNow { prec := true } 0 [] { body := "1.5".toList } 2147483644 ≠ .error .undef := by
+  decide
+
+/-- **print_f_nonfinite_text** — the complete text for NaN and the infinities, every flag set, width, precision and
+each of f/e/g (ISO C 7.21.6.1 p8): `[sign]inf` / `[sign]nan` (`INF` / `NAN` for F E G), sign by the - / + / space
+rule (the sign bit of a NaN is honoured), padded to `width` with BLANKS only - on the right with `-`, on the left
+otherwise: the `0` flag does not zero-pad a non-finite value, `#` and the precision have no effect; returned count
+= max(width, length of the text). -/
+theorem print_f_nonfinite_text {α : Type} (A : Arith α) (fuel : Nat) (r : α) (nanNeg : Bool) (width precision : Int)
+    (ops : Ops) (withExp isShort : Bool) (h : (A.isnan r || A.isinf r) = true) :
+    let s := nfText (A.isnan r) (if A.isnan r then nanNeg else A.signbit r) ops
+    let pad := List.replicate (width - s.length).toNat ' '
+    printF A cfgNow fuel r nanNeg width precision ops withExp isShort =
+      .ok (if ops.left then s ++ pad else pad ++ s, max width s.length) := by
+  intro s pad
+  unfold printF
+  simp only [h, cfgNow, Bool.and_true, if_true]
+  unfold nonFinite
+  simp only [s, pad]
+  generalize A.isnan r = b
+  generalize A.signbit r = sb
+  obtain ⟨left, sign, space, spec, zero, prec, upper, ptr, chr, len⟩ := ops
+  cases b <;> cases sb <;> cases nanNeg <;> cases sign <;> cases space <;> cases upper <;> cases left <;>
+    simp [Igris.C06.printS, Igris.C06.strlen, NUL, nfText, signText] <;> omega
+
+example : printF exactA cfgNow 0 (.inf true) false 8 3 { zero := true, prec := true, upper := true } true false =
+    .ok ("    -INF".toList, 8) := by decide +kernel
+
+/-- **tie_canon_neighbours_agree** — the canonical form of the correspondence (Tie.lean, `tieLower` = the arithmetic
+core of `tieCanon`): for an argument strictly between two neighbouring printable values `lo` and `lo + u`, both
+neighbours have the same canonical form (in the class: `lo`; outside: none), whatever the window. -/
+theorem tie_canon_neighbours_agree (w u x lo : ℚ) (h1 : lo < x) (h2 : x < lo + u) :
+    tieLower w u x lo = tieLower w u x (lo + u) := by
+  unfold tieLower
+  simp only [absQ_eq]
+  have e1 : |lo - x| = x - lo := by rw [abs_of_neg (by linarith)]; ring
+  have e2 : |lo + u - x| = lo + u - x := abs_of_pos (by linarith)
+  have e3 : |x - lo - u / 2| = |lo + u - x - u / 2| := by
+    rw [← abs_neg]; congr 1; ring
+  rw [e1, e2, e3]
+  have g1 : ¬ (lo > x) := by linarith
+  have g2 : lo + u > x := by linarith
+  simp only [g1, g2, if_true, if_false]
+  congr 2
+  all_goals first | rfl | ring_nf
+
+example : tieLower (1 / 1000) 1 (5 / 2) 2 = some 2 ∧ tieLower (1 / 1000) 1 (5 / 2) 3 = some 2 ∧ tieLower (1 / 1000) 1 (27 / 10) 3 = none := by
+  decide +kernel
+
+/-- **tie_canon_exact_tie** — an exact tie (x = lo + u/2) with a coarse unit (window ≤ u/4) is in the class, and the
+form of either neighbour is the lower neighbour. -/
+theorem tie_canon_exact_tie (w u lo : ℚ) (hw : 0 ≤ w) (hpos : 0 < u) (hu : w ≤ u / 4) :
+    tieLower w u (lo + u / 2) lo = some lo ∧ tieLower w u (lo + u / 2) (lo + u) = some lo := by
+  unfold tieLower
+  simp only [absQ_eq]
+  have a1 : |lo - (lo + u / 2)| = u / 2 := by
+    rw [show lo - (lo + u / 2) = -(u / 2) by ring, abs_neg, abs_of_nonneg (by linarith)]
+  have a2 : |lo + u - (lo + u / 2)| = u / 2 := by
+    rw [show lo + u - (lo + u / 2) = u / 2 by ring, abs_of_nonneg (by linarith)]
+  rw [a1, a2]
+  simp only [sub_self, abs_zero]
+  have g1 : ¬ (lo > lo + u / 2) := by linarith
+  have g2 : lo + u > lo + u / 2 := by linarith
+  simp [hu, hw, g1, g2]
 
 end Igris.C13
